@@ -890,3 +890,232 @@ fn merge_into(a: &mut Merged, b: Merged) {
 fn strip_candidate_counters(c: &BTreeMap<String, u64>) -> BTreeMap<String, u64> {
     c.iter().map(|(k, v)| (k.clone(), *v)).collect()
 }
+
+// ---------------------------------------------------------------------------------------------
+// Miri cross-run: the same generators and oracles executed by the Miri interpreter (undefined
+// behaviour in dependency `unsafe` code, overflow checks and debug assertions on).
+
+/// In-process shard (no worker subprocesses, no threads, no FFI): runs cases `from, from+step, ..< to` of
+/// `phase` and prints one line per case: `START <idx>` before and `END <idx> <json>` after; `DONE` at the end.
+/// This is what runs *inside* Miri.
+pub fn run_inproc_shard(prop: &dyn Property, tier: Tier, seed: u64, phase: &str, from: u64, to: u64, step: u64) -> i32 {
+    crate::panics::install_hook();
+    let stdout = std::io::stdout();
+    let mut idx = from;
+    while idx < to {
+        {
+            let mut o = stdout.lock();
+            let _ = writeln!(o, "START {idx}");
+            let _ = o.flush();
+        }
+        let mut ctx = Ctx::new(prop.id(), tier, seed);
+        ctx.phase = phase.to_string();
+        ctx.idx = idx;
+        ctx.sample_cap = 0;
+        let mut rng = Rng::for_case(seed, prop.id(), phase, idx);
+        let r = crate::panics::catch(|| prop.run_case(&mut ctx, phase, idx, &mut rng));
+        if let Err(p) = r {
+            if p.in_repo() {
+                ctx.violation(format!("uncaught-{}", p.signature()), json!({"message": p.message, "location": p.location}));
+            } else {
+                ctx.inconclusive(format!("harness-panic:{}", crate::panics::normalise_message(&p.message)));
+            }
+        }
+        let cands: Vec<Value> = ctx
+            .candidates
+            .iter()
+            .map(|c| json!({"signature": c.signature, "phase": c.phase, "idx": c.idx, "detail": c.detail}))
+            .collect();
+        let v = json!({"evaluations": ctx.evaluations, "counters": ctx.counters, "candidates": cands, "inconclusive": ctx.inconclusive, "hashes": ctx.hashes});
+        {
+            let mut o = stdout.lock();
+            let _ = writeln!(o, "END {idx} {}", serde_json::to_string(&v).unwrap());
+            let _ = o.flush();
+        }
+        idx += step;
+    }
+    println!("DONE");
+    0
+}
+
+/// One entry of a Miri plan: phase name (as understood by `run_case`) and number of case indices.
+pub struct MiriPlan {
+    pub phase: &'static str,
+    pub cases: u64,
+}
+
+fn miri_command(env: &Env) -> std::process::Command {
+    let mut c = std::process::Command::new("cargo");
+    c.arg("+nightly")
+        .arg("miri")
+        .arg("run")
+        .arg("--quiet")
+        .arg("--manifest-path")
+        .arg(env.harness_dir.join("Cargo.toml"))
+        .arg("--target-dir")
+        .arg(env.target_dir.join("miri"))
+        .arg("--")
+        .env("CARGO_NET_OFFLINE", "true")
+        // isolation off: the monitors read tx3.pest and the examples from the repo under test
+        .env("MIRIFLAGS", "-Zmiri-disable-isolation -Zmiri-ignore-leaks")
+        .env("VERIF_REPO", &env.repo_dir)
+        .env("VERIF_DIR", &env.verif_dir)
+        .env("RUST_BACKTRACE", "0")
+        .stdin(std::process::Stdio::null());
+    c
+}
+
+/// Runs `plan` under Miri, sharded over the cores, each shard bounded by `wall_limit_s` seconds of wall
+/// clock (an overrun is *inconclusive*; what the shard completed until then still counts). Counters are
+/// merged under the prefix `miri/`. An "Undefined Behavior" report is a violation candidate
+/// `miri-ub:<message>`; any other abnormal end of the interpreter (unsupported operation, ...) is
+/// inconclusive. The number of operations the interpreter completed is `miri/ops`.
+pub fn miri_cross_run(ctx: &mut Ctx, env: &Env, prop_id: &str, plan: &[MiriPlan], wall_limit_s: u64) {
+    let dir = env.target_dir.join("runs").join(format!("{prop_id}-miri-{}", std::process::id()));
+    let _ = std::fs::remove_dir_all(&dir);
+    if std::fs::create_dir_all(&dir).is_err() {
+        ctx.inconclusive("miri:no-scratch-dir");
+        return;
+    }
+    // 1. build (and check that the interpreter is usable at all)
+    let t0 = Instant::now();
+    let build_log = dir.join("build.stderr");
+    let st = std::fs::File::create(&build_log).and_then(|f| {
+        miri_command(env)
+            .args(["miri-shard", prop_id, "none", "0", "0", "1", "1", "quick"])
+            .stdout(std::process::Stdio::null())
+            .stderr(f)
+            .status()
+    });
+    match st {
+        Ok(s) if s.success() => {}
+        other => {
+            let tail = std::fs::read_to_string(&build_log).unwrap_or_default();
+            let tail: Vec<&str> = tail.lines().rev().take(5).collect();
+            eprintln!("[harness] miri build/start failed: {other:?} {tail:?}");
+            ctx.inconclusive("miri:unavailable-or-build-failed");
+            return;
+        }
+    }
+    ctx.add("miri/build_s", t0.elapsed().as_secs());
+    let shards = n_shards();
+    let deadline = Instant::now() + Duration::from_secs(wall_limit_s);
+    for p in plan {
+        let nsh = shards.min(p.cases.max(1));
+        let mut children = vec![];
+        for i in 0..nsh {
+            let out = dir.join(format!("{}-{i}.out", p.phase));
+            let err = dir.join(format!("{}-{i}.err", p.phase));
+            let (Ok(fo), Ok(fe)) = (std::fs::File::create(&out), std::fs::File::create(&err)) else { continue };
+            let child = miri_command(env)
+                .args(["miri-shard", prop_id, p.phase, &i.to_string(), &p.cases.to_string(), &nsh.to_string(), &ctx.seed.to_string(), ctx.tier.name()])
+                .stdout(fo)
+                .stderr(fe)
+                .spawn();
+            match child {
+                Ok(c) => children.push((i, out, err, c)),
+                Err(_) => ctx.inconclusive("miri:spawn-failed"),
+            }
+        }
+        for (i, out, err, mut child) in children {
+            // wait until the common deadline, then kill
+            let mut status = None;
+            loop {
+                match child.try_wait() {
+                    Ok(Some(s)) => {
+                        status = Some(s);
+                        break;
+                    }
+                    Ok(None) => {
+                        if Instant::now() >= deadline {
+                            let _ = child.kill();
+                            let _ = child.wait();
+                            break;
+                        }
+                        std::thread::sleep(Duration::from_millis(200));
+                    }
+                    Err(_) => break,
+                }
+            }
+            let text = std::fs::read_to_string(&out).unwrap_or_default();
+            let mut started: Option<u64> = None;
+            let mut done = false;
+            for line in text.lines() {
+                if let Some(r) = line.strip_prefix("START ") {
+                    started = r.trim().parse().ok();
+                } else if let Some(r) = line.strip_prefix("END ") {
+                    let mut it = r.splitn(2, ' ');
+                    let _idx = it.next();
+                    let Some(js) = it.next() else { continue };
+                    let Ok(v) = serde_json::from_str::<Value>(js) else { continue };
+                    started = None;
+                    ctx.add("miri/ops", 1);
+                    ctx.add(&format!("miri/ops/{}", p.phase), 1);
+                    ctx.evaluations += v["evaluations"].as_u64().unwrap_or(0);
+                    if let Some(o) = v["counters"].as_object() {
+                        for (k, n) in o {
+                            if k.starts_with("candidate/") {
+                                continue;
+                            }
+                            ctx.add(&format!("miri/{k}"), n.as_u64().unwrap_or(0));
+                        }
+                    }
+                    if let Some(a) = v["candidates"].as_array() {
+                        for c in a {
+                            let sig = c["signature"].as_str().unwrap_or("").to_string();
+                            let mut d = c["detail"].clone();
+                            if let Some(o) = d.as_object_mut() {
+                                o.insert("engine".into(), json!("miri"));
+                            }
+                            ctx.phase = p.phase.to_string();
+                            ctx.idx = c["idx"].as_u64().unwrap_or(0);
+                            ctx.violation(sig, d);
+                        }
+                    }
+                    if let Some(a) = v["inconclusive"].as_array() {
+                        for s in a {
+                            if let Some(s) = s.as_str() {
+                                ctx.inconclusive(format!("miri:{s}"));
+                            }
+                        }
+                    }
+                    if let Some(a) = v["hashes"].as_array() {
+                        for h in a {
+                            if let Some(h) = h.as_u64() {
+                                ctx.hashes.push(h ^ 0x6d69_7269);
+                            }
+                        }
+                    }
+                } else if line.trim() == "DONE" {
+                    done = true;
+                }
+            }
+            let etext = std::fs::read_to_string(&err).unwrap_or_default();
+            match status {
+                Some(s) if s.success() && done => ctx.add("miri/shards-completed", 1),
+                Some(_) => {
+                    // the interpreter stopped: UB report or something it does not support
+                    if let Some(pos) = etext.find("Undefined Behavior") {
+                        let msg: String = etext[pos..].lines().next().unwrap_or("").chars().take(160).collect();
+                        let frames: Vec<String> = etext[pos..].lines().filter(|l| l.trim_start().starts_with("= note: inside") || l.trim_start().starts_with("-->")).take(12).map(|l| l.trim().chars().take(200).collect()).collect();
+                        ctx.phase = p.phase.to_string();
+                        ctx.idx = started.unwrap_or(0);
+                        ctx.violation(
+                            format!("miri-ub:{}", crate::panics::normalise_message(msg.trim_start_matches("Undefined Behavior:").trim())),
+                            json!({"engine": "miri", "phase": p.phase, "idx": started, "shard": i, "report": msg, "frames": frames}),
+                        );
+                    } else {
+                        let tail: Vec<String> = etext.lines().filter(|l| l.starts_with("error")).take(2).map(|l| l.chars().take(160).collect()).collect();
+                        eprintln!("[harness] miri shard {i} of {} stopped at case {started:?}: {tail:?}", p.phase);
+                        ctx.inconclusive(format!("miri:interpreter-stopped:{}", p.phase));
+                    }
+                }
+                None => {
+                    ctx.add("miri/shards-cut-at-deadline", 1);
+                }
+            }
+        }
+    }
+    ctx.add("miri/wall_s", t0.elapsed().as_secs());
+    let _ = std::fs::remove_dir_all(&dir);
+}
